@@ -33,7 +33,8 @@ Two parts, one evidence file (LEVEL = model_checking).
     <token index>, sel = SELECT WHO FROM MARK, USE SCHEMA S2 [S1], SET V = 'v<token index>', SELECT $V), at most 3
     tokens, depth 4 (quick) / 6 (thorough), against mc/ref/c17_model.SessionModel (a dict per token + one data store per
     instance).  Every abstract state is expanded once (from its canonically first history): the history is replayed
-    on a freshly reset server (fakesnow.server.shared_fs / sessions are re-created between histories), then every
+    on a freshly reset server (fakesnow.server is re-imported between histories, which re-creates all of its
+    module-level state: shared_fs, sessions), then every
     enabled operation is applied - operations the model predicts to change the state each on their own replay,
     the others one after another on the live state, guarded by the ground-truth digest.
       C17.s.login         a login succeeds and yields a session with database DB1, schema S1 and no variables
@@ -735,9 +736,13 @@ def judge(st, oi, oh, statuses, acc, rp):
             acc.violation("C17.error", f"{cls},diff={'+'.join(diff)}", {"sql": st["sql"][:300], "inproc": oi["err"], "http": oh["err"]}, rp)
         return
     # ---- both succeeded ------------------------------------------------------------------------------------------------
+    cts = "+".join(sorted({_type_name(d[1]) for d in oi["desc"]})) if oi["desc"] else "?"
+    acc.member("C17.rows", f"cols={cts},fetch_raises=http", bool(oh["fetch_err"]) and not oi["fetch_err"])
     if oi["fetch_err"] or oh["fetch_err"]:
+        # fetchall() itself raised on one side: keyed by the column types of the result (in-process description)
         if bool(oi["fetch_err"]) != bool(oh["fetch_err"]) or M.cmp_error(oi["fetch_err"], oh["fetch_err"]):
-            acc.violation("C17.rows", f"{cls},fetch_raises", {"sql": st["sql"][:300], "inproc": oi["fetch_err"], "http": oh["fetch_err"]}, rp)
+            side = "both" if oi["fetch_err"] and oh["fetch_err"] else ("inproc" if oi["fetch_err"] else "http")
+            acc.violation("C17.rows", f"cols={cts},fetch_raises={side}", {"sql": st["sql"][:300], "inproc": oi["fetch_err"] or _brief(oi), "http": oh["fetch_err"] or _brief(oh)}, rp)
         return
     ri, rh = oi["rows"], oh["rows"]
     if ri:
@@ -1200,7 +1205,7 @@ def run(ctx: core.Ctx):
     )
     ctx.assumptions = [
         "the connector sends each statement exactly once (_no_retry=True); statuses are recorded by a pass-through ASGI wrapper",
-        "fakesnow.server.shared_fs / sessions are re-created between histories (equivalent to restarting the server)",
+        "fakesnow.server is re-imported (importlib.reload) between groups / histories: all of its module-level state (shared_fs, sessions) starts fresh, equivalent to restarting the server",
         "the in-process fake is the reference for part (a) (differential oracle): defects common to both sides are other properties' business",
         "part (b): abstract states with equal (token kinds, instances, schema, V, MARK tables) have equal futures; each is expanded from its canonically first history",
         "process time zone UTC",
